@@ -1290,6 +1290,125 @@ def stage_client(ctx):
 
 
 # =============================================================================================
+# Stage A2: time stamps with mixed sub-second presence (SFTPv4-6)
+
+TIMES = ('atime', 'crtime', 'mtime', 'ctime')
+
+
+def time_mix_records(v):
+    """Every subset of the time stamps the version carries, and every subset of those carrying `_ns`."""
+    names = TIMES if v >= 6 else TIMES[:3]
+    out = []
+    for pm in range(1 << len(names)):
+        present = [n for i, n in enumerate(names) if pm >> i & 1]
+        for nm in range(1 << len(present)):
+            t = W.blank()
+            t[0] = 1
+            for j, n in enumerate(present):
+                t[W.IDX[n]] = 1700000000 + 10 * j + len(present)
+                if nm >> j & 1:
+                    t[W.IDX[n + '_ns']] = (123456789, 0, 999999999, 1)[j]
+            out.append(tuple(t))
+    return out
+
+
+def time_mix_expected(t):
+    """What the peer must see (HEAD's documented behaviour: sub-second times are all-or-nothing on the wire;
+    a present time stamp without `_ns` travels with 0 nanoseconds when any other carries them)."""
+    sub = any(t[W.IDX[n + '_ns']] is not None for n in TIMES)
+    e = list(t)
+    for n in TIMES:
+        if t[W.IDX[n]] is not None and sub:
+            e[W.IDX[n + '_ns']] = t[W.IDX[n + '_ns']] or 0
+    return tuple(e)
+
+
+def times_of(t):
+    return {n: (t[W.IDX[n]], t[W.IDX[n + '_ns']]) for n in TIMES if t[W.IDX[n]] is not None or t[W.IDX[n + '_ns']] is not None}
+
+
+def oracle_time_mix_codec(ctx, v, t):
+    enc = impl_attrs_encode(t, v)
+    got = impl_attrs_decode(enc + b'\x09', v) if enc not in (None, 'skip') else None
+    want = ('ok', (time_mix_expected(t), b'\x09'))
+    if got != want:
+        ctx.failing_input(
+            f'SFTPv{v} attributes with time stamps {times_of(t)!r} (name: (seconds, nanoseconds)) do not survive '
+            f'encode/decode: encoded={enc!r}, decoded={got if got is None or got[0] != "ok" else times_of(got[1][0])!r}, '
+            f'expected {times_of(time_mix_expected(t))!r}',
+            {'kind': 'attrs_time_mix', 'version': v, 'attrs': _jsonable(t)})
+        return False
+    return True
+
+
+async def time_mix_sessions(ctx, records, quiet=None):
+    """The same records through a real negotiated v4-v6 session: the server's stat() result as the client's
+    stat() sees it, and the client's setstat() argument as the server's setstat() receives it."""
+    import asyncssh
+    state = {}
+
+    class Srv(asyncssh.SFTPServer):
+        def stat(self, path):
+            return state['attrs']
+
+        def setstat(self, path, attrs):
+            state['got'] = attrs
+    listener, conn = await sshutil.loopback(srv_kw={'sftp_factory': Srv, 'sftp_version': 6})
+    sink = quiet or ctx
+    n = 0
+    try:
+        for v in (4, 5, 6):
+            sftp = await conn.start_sftp_client(sftp_version=v)
+            for t in records[v]:
+                want = times_of(time_mix_expected(t))
+                state['attrs'] = W.attrs_to_impl(t)
+                for direction in ('stat', 'setstat'):
+                    n += 1
+                    try:
+                        if direction == 'stat':
+                            got = times_of(W.attrs_from_impl(await sftp.stat(b'/f')))
+                        else:
+                            state['got'] = None
+                            await sftp.setstat(b'/f', W.attrs_to_impl(t))
+                            got = times_of(W.attrs_from_impl(state['got'])) if state['got'] is not None else 'not delivered'
+                    except (asyncssh.Error, OSError, ValueError) as e:
+                        got = f'{type(e).__name__}({str(e)[:50]})'
+                    if got != want:
+                        sink.failing_input(
+                            f'SFTPv{v} session, {direction} with time stamps {times_of(t)!r}: the peer got {got!r}, expected {want!r}',
+                            {'kind': 'attrs_time_mix', 'version': v, 'attrs': _jsonable(t), 'direction': direction})
+                        break
+            sftp.exit()
+    finally:
+        conn.close()
+        listener.close()
+        await listener.wait_closed()
+    return n
+
+
+def stage_time_mix(ctx):
+    records = {v: time_mix_records(v) for v in (4, 5, 6)}
+    enc_cases = []
+    mixed = 0
+    for v in (4, 5, 6):
+        for t in records[v]:
+            oracle_time_mix_codec(ctx, v, t)
+            is_mixed = time_mix_expected(t) != t
+            mixed += is_mixed
+            ctx.note_case(('time-mix', v, t), nontrivial=is_mixed)
+            enc_cases.append('(%d, %s, %s)' % (v, W.attrs_to_coq(t), copt(impl_attrs_encode(t, v), zl)))
+    n = sshutil.run(time_mix_sessions(ctx, records), timeout=900)
+    ctx.cov['oracle']['time_mix_records'] = sum(len(x) for x in records.values())
+    ctx.cov['oracle']['time_mix_records_with_mixed_ns'] = mixed
+    ctx.cov['oracle']['time_mix_session_roundtrips'] = n
+    ctx.cov.setdefault('exhaustive', {})['time_stamp_and_ns_presence_subsets_v4_v5_v6'] = [len(records[v]) for v in (4, 5, 6)]
+    report(ctx, 'attrs_time_mix', ctx.coq_cases('attrs_time_mix', IMPORTS, 'chk_attrs_enc', enc_cases,
+                                                 ty='Z * attrs * option bytes', shard=300), enc_cases)
+    if mixed < 50:
+        ctx.broke('vacuity:time_mix', f'only {mixed} mixed records')
+
+
+# =============================================================================================
 
 def run(ctx):
     ctx.cov['rule'] = (
@@ -1331,6 +1450,7 @@ def run(ctx):
         ctx.broken = [b for b in ctx.broken if b not in racy]
     oracle_tables(ctx)
     stage_codecs(ctx)
+    stage_time_mix(ctx)
     stage_server(ctx)
     stage_client(ctx)
 
@@ -1407,6 +1527,12 @@ def replay(rp):
     q = Quiet()
     if kind == 'attrs_roundtrip':
         oracle_attrs_roundtrip(q, rp['version'], _unjson(rp['attrs']))
+    elif kind == 'attrs_time_mix':
+        t = _unjson(rp['attrs'])
+        if rp.get('direction'):
+            sshutil.run(time_mix_sessions(None, {v: ([t] if v == rp['version'] else []) for v in (4, 5, 6)}, quiet=q))
+        else:
+            oracle_time_mix_codec(q, rp['version'], t)
     elif kind == 'name_roundtrip':
         n = (bytes.fromhex(rp['filename']), None if rp['longname'] is None else bytes.fromhex(rp['longname']),
              _unjson(rp['attrs']))
